@@ -995,9 +995,10 @@ static int parse_data(vnacal_load_state_t *vlsp, const vnacal_layout_t *vlp,
 	/*
 	 * Make sure we have the frequency and that it's ascending.
 	 */
-	if (frequency < 0.0) {
+	if (!(frequency >= 0.0)) {	/* missing, negative or not-a-number */
 	    _vnacal_error(vcp, VNAERR_SYNTAX,
-		    "%s (line %ld) error: missing required field \"f\"",
+		    "%s (line %ld) error: missing or invalid required "
+		    "field \"f\"",
 		    vcp->vc_filename, child->start_mark.line + 1);
 	    return -1;
 	}
